@@ -1,5 +1,5 @@
 SPECIFICATION Spec
-CONSTANTS Pfx = {"A", "B"} MaxHops = 2 MaxCid = 3 QCap = 100 MaxDepth = 100000 LeakDetached = FALSE AnyState = FALSE MaxInst = 6 Lifecycle = TRUE UnloadClears = FALSE CandInit = {TRUE, FALSE} CloseWays = {"close", "closeR", "remove", "removeR", "removeNow", "removeD"} ReasonDecides = FALSE ReadyInit = FALSE
+CONSTANTS Pfx = {"A", "B"} MaxHops = 2 MaxCid = 3 QCap = 100 MaxDepth = 100000 LeakDetached = FALSE AnyState = FALSE MaxInst = 6 Lifecycle = TRUE UnloadClears = FALSE CandInit = {TRUE, FALSE} CloseWays = {"close", "closeR", "remove", "removeR", "removeNow", "removeD"} ReasonDecides = FALSE ReadyInit = FALSE Expiry = TRUE
 INVARIANT TypeOK
 INVARIANT NoRawForAnon
 INVARIANT TunnelledOnlyOverReadyRightCircuit
